@@ -390,14 +390,19 @@ class Interp:
             memo_key = None
             for dn, dexpr in zip(decos, fn.decorator_list):
                 base = dn if dn is not None else (dotted(dexpr.func) if isinstance(dexpr, ast.Call) else None)
-                if base in ("staticmethod", "classmethod", "property", "abstractmethod", "abc.abstractmethod", "override", "typing.override", "final", "typing.final") \
+                if base in ("staticmethod", "classmethod", "property", "cached_property", "functools.cached_property", "abstractmethod", "abc.abstractmethod", "override", "typing.override", "final", "typing.final") \
                         or (base or "").endswith((".setter", ".getter")):
                     continue
                 if base in ("lru_cache", "functools.lru_cache", "cache", "functools.cache"):
-                    bounded = isinstance(dexpr, ast.Call) and not any(
-                        isinstance(v, ast.Constant) and v.value is None for v in list(dexpr.args[:1]) + [k.value for k in dexpr.keywords if k.arg == "maxsize"])
-                    if base.endswith("lru_cache") and (bounded or not isinstance(dexpr, ast.Call)):
-                        raise Unsupported(f"{f.qual} is memoised with a bounded lru_cache; eviction is not modelled")
+                    memo_limit: int | None = None
+                    if base.endswith("lru_cache"):
+                        memo_limit = 128  # the library's default
+                        if isinstance(dexpr, ast.Call):
+                            vals = list(dexpr.args[:1]) + [k.value for k in dexpr.keywords if k.arg == "maxsize"]
+                            if vals:
+                                if not (isinstance(vals[0], ast.Constant) and (vals[0].value is None or isinstance(vals[0].value, int))):
+                                    raise Unsupported(f"{f.qual}: lru_cache size `{ast.unparse(vals[0])}` is not a literal")
+                                memo_limit = vals[0].value
                     try:
                         memo_key = (f.qual, tuple(args), tuple(sorted(kwargs.items())))
                         hash(memo_key)
@@ -409,6 +414,9 @@ class Interp:
                 table = self.__dict__.setdefault("_memo_tables", {})
                 if memo_key in table:
                     return table[memo_key]
+                # a bounded cache behaves like an unbounded one until it is full; eviction is not modelled
+                if memo_limit is not None and sum(1 for k in table if k[0] == f.qual) >= memo_limit:
+                    raise Unsupported(f"the lru_cache of {f.qual} (maxsize {memo_limit}) is full; eviction is not modelled")
                 self.depth -= 1
                 try:
                     stripped = Func(f.mod, f.cls, _without_decorators(fn))
@@ -918,7 +926,10 @@ class Interp:
                 return dict(o.attrs)
             getter = self._find_property(o.cls, attr, "getter")
             if getter is not None:
-                return self.call_func(getter, [o], {})
+                val = self.call_func(getter, [o], {})
+                if any((dotted(d) or "").split(".")[-1] == "cached_property" for d in getter.node.decorator_list):
+                    o.attrs[attr] = val  # functools.cached_property: the value is stored in the instance and found there from now on
+                return val
             m = self.repo.find_method(o.cls, attr)
             if m is not None:
                 return FuncVal(m, o)
@@ -988,7 +999,7 @@ class Interp:
             for sub in k.node.body:
                 if isinstance(sub, ast.FunctionDef) and sub.name == attr:
                     decos = [dotted(d) for d in sub.decorator_list]
-                    if kind == "getter" and "property" in decos:
+                    if kind == "getter" and ("property" in decos or any((d or "").split(".")[-1] == "cached_property" for d in decos)):
                         return Func(k.mod, k, sub)
                     if kind == "setter" and f"{attr}.setter" in decos:
                         return Func(k.mod, k, sub)
@@ -1115,6 +1126,8 @@ class Interp:
                 try:
                     return str(self.call_func(m, [v], {}))
                 except Unsupported:
+                    if not self._lenient:
+                        raise
                     return f"<{v.cls.name}>"
             return f"<{v.cls.name}>"
         if isinstance(v, EnumVal):
